@@ -37,6 +37,10 @@ claimed = {
    text="Proof per function: delivery iff enabled through ioCore/tee/level-filter/hooked/sampler Check (each verified against the Core.Check interface contract, which is the AddCore accumulation discipline), increase-level validation over all seven levels, LevelOf / tee / AtomicLevel / Logger.Level reports for all 256 int8 values, the Logger.check pre-check does nothing else (no clock read, no Check, no Write).",
    note=BASE_NOTE + "Level enablers are functions of (enabler, level) within one verified call; user cores obey the Core.Check interface contract (encapsulation rely). Out-of-range levels under non-monotone enablers in an increase-level core: not proved.",
    ref="7 (C05)"),
+ "C19": dict(
+   text="Proof: open() - at the moment closeAll is called the closers slice holds exactly the sinks whose open succeeded (positional countOK invariant over the call log, any number of paths and failure positions), closeAll closes every element, and it is called exactly on the error path; Open/openSinks/Build sequencing (second Open failing closes the first set; after openSinks succeeded Build cannot fail); redirectStdLogAt restores nothing because it changes nothing on error (ghost std-logger cells); file-URL checks (user, fragment, query, port, host) before exactly the path is opened with O_WRONLY|O_APPEND|O_CREATE 0666; RegisterSink/RegisterEncoder leave the registry untouched on error and add exactly one entry otherwise; scheme normalisation loop.",
+   note=BASE_NOTE + "url.Parse, filepath.IsAbs, os.OpenFile, package log and strings.ToLower are assumed; real files and descriptors are outside. Config.buildOptions and zap.New are trusted (not verified). A registered nil factory/constructor would panic at use (RegisterSink does not reject nil) - outside the property.",
+   ref="7 (C19)"),
  "C20": dict(
    text="Proof: name tables of String/CapitalString for the seven levels, unmarshalText/UnmarshalText/Set/ParseLevel accept exactly the listed names (then lower-cased) and leave the target untouched on rejection, round-trip lemmas for all valid levels, AtomicLevel get/set for all int8 values, serveHTTP: SetLevel only after a successful decode of a PUT and to exactly the decoded level, 400/405 otherwise with the level unchanged.",
    note=BASE_NOTE + "encoding/json, net/http and bytes.ToLower are assumed (the seven ToLower facts are executed as ground tests every run); what the JSON decoder accepts as well-formed is the library's behaviour.",
